@@ -7,13 +7,17 @@ source spec: {"shape", "chunks", "dtype", "dseed", "nan": fraction, "ties": bool
 
 For every case (everything replays from the dict alone):
   * the user's NumPy arrays are fingerprinted before / after construction, every execution, every compute;
-  * the merged graph of [outputs, a sibling consumer of the same input, the input, the raw from_array collection]
-    is executed in FIFO, LIFO and seeded random topological orders; every dependency is fingerprinted before/after
-    every task and EVERY value is re-fingerprinted at the end of the execution (a value may never change after the
-    task that made it returned);
-  * results are compared bytewise across orders, with two `sync` computes and two 4-thread computes;
-  * afterwards `x.compute()` of the from_array collection and of a FRESH from_array of identical data (which
-    dedups to the same expression, i.e. the same blocks held in the graph) must return the pristine data.
+  * roots = [outputs, a sibling consumer of the same input, the input, the raw from_array collection]; two graphs
+    are executed: the per-root graphs merged (every root lowered on its own) and the JOINT graph dask.compute(*roots)
+    hands to the scheduler (joint optimization + finalize tasks), in FIFO, LIFO and seeded random topological orders;
+    every dependency is fingerprinted before/after every task and EVERY value is re-fingerprinted at the end of the
+    execution (a value may never change after the task that made it returned);
+  * results are compared bytewise across the orders of one graph, with two `sync` computes and the 4-thread scheduler
+    (a difference BETWEEN the two lowerings is only noted: C02's business);
+  * afterwards the values of the input collections in the last compute (= x.compute() now) and a FRESH from_array
+    of identical data (which dedups to the same expression, i.e. the same blocks held in the graph) must be the
+    pristine data.
+Signatures: `mutates-input:<op>` and `schedule-dependent:<op>` (see run_case).
 NumPy is evaluated on copies as a sanity oracle; a value mismatch on which all schedules agree is only noted
 (C01's business).
 """
@@ -272,9 +276,14 @@ def run_case(ctx, case, count=True):
     entry = OPS[op]
     note = lambda k, n=1: ctx.notes.__setitem__(k, ctx.notes.get(k, 0) + n)
     raw = []
+    culprits = set()
 
     def fail(kind, detail):
         raw.append((kind, detail))
+
+    def culprit(key):
+        name = key[0] if isinstance(key, tuple) else key
+        culprits.add(str(name).split("-")[0])
 
     def collapse():
         out = []
@@ -285,7 +294,12 @@ def run_case(ctx, case, count=True):
                 if d is not None:
                     ds.append(f"[{k}] {d}")
             if ds and not (name == "schedule-dependent" and out):
-                out.append((f"{name}:{op}", " ;; ".join(ds)[:900]))
+                who = op
+                # every mutating task belongs to the sibling consumer (x.cumsum / -x), not to the operation of the case
+                if name == "mutates-input" and culprits and case["sib"] != "none" and culprits <= {case["sib"], "cumsum", "neg", "invert"} \
+                        and op not in ("cumsum", "cumsum_method", "negative"):
+                    who = f"sibling.{sorted(culprits)[0]}"
+                out.append((f"{name}:{who}", " ;; ".join(ds)[:900]))
         return out
 
     user, pristine = build_sources(case)
@@ -351,7 +365,7 @@ def run_case(ctx, case, count=True):
         # per-root graphs merged (every root lowered on its own) and the joint graph of dask.compute(*roots)
         orders = [("merged", "fifo", None), ("joint", "lifo", None)]
         orders += [("joint" if i % 2 == 0 else "merged", "random", case["oseed"] * 1000 + i) for i in range(case["orders"])]
-        ref = None
+        refs = {"merged": None, "joint": None}
         for which, oname, oseed in orders:
             tag = f"{which} graph, order {oname}/{oseed}"
             try:
@@ -364,20 +378,36 @@ def run_case(ctx, case, count=True):
                 outcome = ("raise", f"{type(e).__name__}: {str(e)[:160]}")
             for tk, dk, kind in muts[:3]:
                 if kind == "dep":
+                    culprit(tk)
                     fail("dependency-mutated", f"{tag}: task {tk!r} changed the value of its dependency {dk!r}")
                 else:
                     fail("value-changed-after-creation", f"{tag}: the value of {dk!r} changed after the task that made it returned")
             users_changed(f"during serial execution ({tag})")
+            ref = refs[which]
             if ref is None:
-                ref = outcome
-            elif outcome[0] != ref[0]:
-                fail("order-dependent-outcome", f"{orders[0][0]} graph, order fifo -> {ref[0]} {ref[1] if ref[0] == 'raise' else ''}; {tag} -> {outcome[0]} {outcome[1] if outcome[0] == 'raise' else ''}")
+                refs[which] = (tag, outcome)
+            elif outcome[0] != ref[1][0]:
+                fail("order-dependent-outcome", f"{ref[0]} -> {ref[1][0]} {ref[1][1] if ref[1][0] == 'raise' else ''}; {tag} -> {outcome[0]} {outcome[1] if outcome[0] == 'raise' else ''}")
             elif outcome[0] == "ok":
-                for i, (a, b) in enumerate(zip(ref[1], outcome[1])):
+                for i, (a, b) in enumerate(zip(ref[1][1], outcome[1])):
                     if not same(a, b):
-                        fail("order-dependent-result", f"root {i} ({'output' if i < nout else 'input/sibling'}): merged graph order fifo vs {tag}: {head(a)} vs {head(b)}")
+                        fail("order-dependent-result", f"root {i} ({'output' if i < nout else 'input/sibling'}): {ref[0]} vs {tag}: {head(a)} vs {head(b)}")
             if count:
                 ctx.count()
+        # the two graphs are DIFFERENT lowerings of the same arrays: one raising / rounding differently is not
+        # schedule dependence (C02's business) -> noted; the stock schedulers run the joint graph
+        m, j = refs["merged"][1], refs["joint"][1]
+        if m[0] != j[0]:
+            note("cat.per_root_vs_joint_graph_outcome_differs(C02)")
+            ex = ctx.notes.setdefault("cat.per_root_vs_joint_examples", [])
+            if len(ex) < 4:
+                ex.append(f"{op} {case['kw']} {[s['chunks'] for s in case['src']]}: merged {m[0]} {m[1] if m[0] == 'raise' else ''} / joint {j[0]} {j[1] if j[0] == 'raise' else ''}")
+        elif m[0] == "ok" and not all(same(a, b) or close(a, b) for a, b in zip(m[1], j[1])):
+            note("cat.per_root_vs_joint_graph_values_differ(C02)")
+            ex = ctx.notes.setdefault("cat.per_root_vs_joint_examples", [])
+            if len(ex) < 4:
+                ex.append(f"{op} {case['kw']} {[s['chunks'] for s in case['src']]}: values differ between the two lowerings")
+        ref = j
         if ref[0] == "raise":
             note("cat.all_orders_raise")
             ex = ctx.notes.setdefault("cat.all_orders_raise_examples", [])
@@ -385,29 +415,35 @@ def run_case(ctx, case, count=True):
                 ex.append(f"{op} {case['kw']} {[s['chunks'] for s in case['src']]}: {ref[1][:90]}")
             return collapse()
         # the stock schedulers, twice each: a second compute of the same graph must equal the first
-        for sched, kw, sig in (("sync", {}, "recompute-differs"), ("threads", {"num_workers": 4}, "threads-differ")):
-            for rep in range(2):
+        last = None
+        for sched, kw, sig, reps in (("sync", {}, "recompute-differs", 2), ("threads", {"num_workers": 4}, "threads-differ", case.get("threads", 1))):
+            for rep in range(reps):
                 try:
                     got = dask.compute(*roots, scheduler=sched, **kw)
                 except Exception as e:
                     fail("order-dependent-outcome", f"instrumented orders succeed, compute(scheduler={sched!r}) run {rep} raises {type(e).__name__}: {str(e)[:160]}")
                     break
                 users_changed(f"during compute(scheduler={sched!r})")
+                last = got
                 for i, (a, b) in enumerate(zip(ref[1], got)):
                     if not same(a, b):
                         fail(sig, f"root {i} ({'output' if i < nout else 'input/sibling'}): first serial execution vs compute({sched}) run {rep}: {head(a)} vs {head(b)}")
                 if count:
                     ctx.count()
         # the source afterwards
+        # (the input collections A0 / X0 are roots: their values in the LAST compute are what x.compute() returns now)
+        nsrc = len(X0)
         for i, (x, a, p, s) in enumerate(zip(X0, A0, pristine, case["src"])):
             try:
-                after = a.compute(scheduler="sync") if case["pre"] != "persist" else None
-                rawv = x.compute(scheduler="sync")
+                if last is not None:
+                    after, rawv = last[len(roots) - 2 * nsrc + i], last[len(roots) - nsrc + i]
+                else:
+                    after, rawv = a.compute(scheduler="sync"), x.compute(scheduler="sync")
                 fresh = raw_collection(da, s, ucopy[i].copy(), case["pre"]).compute(scheduler="sync")
             except Exception as e:
                 fail("order-dependent-outcome", f"computing source {i} afterwards raises {type(e).__name__}: {str(e)[:160]}")
                 continue
-            if after is not None and not same(after, p):
+            if not same(after, p):
                 fail("source-collection-changed", f"source {i}: x.compute() after the computation no longer returns the source data: {head(p)} -> {head(after)}")
             elif not same(rawv, ucopy[i]):
                 fail("source-collection-changed", f"source {i}: from_array(...).compute() after the computation no longer returns the data: {head(ucopy[i])} -> {head(rawv)}")
